@@ -441,6 +441,14 @@ func (w *nodeWorld) buildTxs(a *app.Haqq, ctx sdk.Context, tok string) [][]byte 
 		return [][]byte{w.cosmosTx(a, ctx, ki(1), stakingtypes.NewMsgUndelegate(w.acc(ki(1)), w.val2Addr, coin(f[2])[0]))}
 	case "mredel2":
 		return [][]byte{w.cosmosTx(a, ctx, ki(1), stakingtypes.NewMsgBeginRedelegate(w.acc(ki(1)), w.val2Addr, w.valAddr, coin(f[2])[0]))}
+	case "pcdeleg2":
+		// key k calls the staking precompile directly: delegate(k, second validator, amount) — the amount may be 0,
+		// which the native message refuses in ValidateBasic (messages that arrive through a precompile never pass it)
+		in, err := sabi.Pack("delegate", w.eth(ki(1)), w.val2Addr.String(), mustBig(f[2]))
+		if err != nil {
+			panic(err)
+		}
+		return [][]byte{w.ethTx(a, ctx, ki(1), &stk, nil, in, 500_000, 0)}
 	case "ethm":
 		// an EVM value transfer to the hex form of a module account
 		to := common.BytesToAddress(authtypes.NewModuleAddress(f[2]).Bytes())
@@ -727,8 +735,13 @@ func nodeGen(r *rand.Rand, tier string, prop string) []Case {
 		}
 		c := Case{fmt.Sprintf("world # seed=%d", wseed)}
 		c = append(c, "blk # dt=6 txs=deploy.0|eth.1.5|bhdeploy.1")
-		c = append(c, "blk # dt=6 txs=fundpup.0.1000000000000000|approve.1|approve.2|mdeleg.3.100000000000000000|mdeleg.1.100000000000000000|mdeleg.2.100000000000000000")
+		c = append(c, "blk # dt=6 txs=fundpup.0.1000000000000000|approve.1|approve.2|pcdeleg2.0.0|pcdeleg2.4.0|mdeleg.3.100000000000000000|mdeleg.1.100000000000000000|mdeleg.2.100000000000000000")
 		c = append(c, "blk # dt=6 txs=vests.4.2.30000000000000000000|vest.4.5.9000000000000000000000|vestc.4.3.50000000000000000|bhdeploy.3|bhash.1.1|codeless.2|mdeleg2.1.300000000000000000|mdeleg2.3.200000000000000000")
+		if prop == "C15" {
+			// a contract that ignores failures forwards a delegation of more than the origin holds: the call fails inside the
+			// staking message (after the distribution hook has run) — nothing of it may stay
+			c = append(c, "blk # dt=6 txs=send.2.3.7", "blk # dt=6 txs=pup.1.0.d:999999999999999999999999")
+		}
 		if prop == "C19" && wseed%5 == 0 {
 			// the world that reaches the coinomics cap: exported after every one of the next blocks (one of them is the
 			// block in which minting switches itself off)
@@ -1276,6 +1289,16 @@ func c15Exec(c Case) (outs []string, fails []Failure, tags []string) {
 		b := run.blocks[len(run.blocks)-1]
 		header := testutil.NewHeader(b.height, b.time, nodeChainID, run.w.proposer, run.a.LastCommitID().Hash, run.w.valSet.Hash())
 		ctx := run.a.BaseApp.NewContext(true, header)
+		if os.Getenv("NODE_DEBUG") != "" {
+			for _, d := range run.a.StakingKeeper.GetAllDelegations(ctx) {
+				if b.height == 3 && d.DelegatorAddress == run.w.acc(0).String() {
+					fmt.Fprintln(os.Stderr, "h3 key0 delegation", d.ValidatorAddress, d.Shares)
+				}
+				if d.Shares.IsZero() {
+					fmt.Fprintln(os.Stderr, "h", b.height, "zero-share delegation", d.DelegatorAddress, d.ValidatorAddress)
+				}
+			}
+		}
 		for _, r := range run.a.CrisisKeeper.Routes() {
 			func() {
 				defer func() {
